@@ -9,9 +9,20 @@ from .devsim import ModbusDevice, EsDevice, et_device_info, dt_device_info, ET_O
 import goodwe.model as M
 
 POWERS = (3000, 14999, 15000, 24999, 25000, 50000)
-ET_TAGS = tuple(M.ET_MODEL_TAGS) + ('25KET', '29K9ET')
-DT_TAGS = tuple(M.DT_MODEL_TAGS)
-ES_TAGS = tuple(M.ES_MODEL_TAGS)
+import json as _json
+import os as _os
+
+_PIN = _json.load(open(_os.path.join(_os.path.dirname(__file__), 'data', 'model_tags.json')))
+
+
+def _tags(pinned, current):
+    """the pinned tags (a change of the library's lists must not shrink what is enumerated) plus tags the library newly knows"""
+    return tuple(pinned) + tuple(t for t in current if t not in pinned)
+
+
+ET_TAGS = _tags(_PIN['et_tags'], tuple(getattr(M, 'ET_MODEL_TAGS', ())) + ('25KET', '29K9ET'))
+DT_TAGS = _tags(_PIN['dt_tags'], getattr(M, 'DT_MODEL_TAGS', ()))
+ES_TAGS = _tags(_PIN['es_tags'], getattr(M, 'ES_MODEL_TAGS', ()))
 ALL_LISTS = dict(single=M.SINGLE_PHASE_MODELS, mppt3=M.MPPT3_MODELS, mppt4=M.MPPT4_MODELS, bat2=M.BAT_2_MODELS,
                  p745=tuple(M.PLATFORM_745_LV_MODELS) + tuple(M.PLATFORM_745_HV_MODELS), p753=M.PLATFORM_753_MODELS)
 
